@@ -268,6 +268,32 @@ func init() {
 				}
 				return false
 			}
+			// "Inside by a margin" must hold for ONE operand: the star test on the union would accept a point
+			// on the seam plane between two stacked operands (one arm of the star in the lower solid, the other
+			// in the upper one, the point itself exactly on the upper solid's closed bottom face), which is
+			// inside the union mathematically but within an ulp of both operands' boundaries — there the
+			// translated box (min + delta <= p) and the translated point (min <= p - delta) may round
+			// differently, which is below this check's stated resolution, not a cut.
+			b.sure = func(p kit.V3, m float64) int {
+				for i, k := range ks {
+					q := kit.V3{p[0], p[1], p[2] - offs[i]}
+					in := k.contains(q)
+					for a := 0; a < 3 && in; a++ {
+						for _, s := range []float64{-m, m} {
+							r := q
+							r[a] += s
+							if !k.contains(r) {
+								in = false
+								break
+							}
+						}
+					}
+					if in {
+						return 1
+					}
+				}
+				return 0
+			}
 			for i, k := range b.kids {
 				for _, w := range k.wit {
 					b.addWit(kit.V3{w[0], w[1], w[2] + offs[i]})
@@ -705,6 +731,19 @@ func init() {
 				n.P = append(n.P, nrm)
 				n.F = append(n.F, nrm.Dot(c)+d*nrm.Norm())
 			}
+			// the same half-spaces written with normals of very different lengths (normal and bound scaled
+			// together by 10^I[1+i] when the library object is built): the polytope is unchanged, and the
+			// library's tolerances are documented to scale with the normals
+			if rapid.IntRange(0, 2).Draw(g.t, lab+".rescale") == 0 {
+				common := rapid.Bool().Draw(g.t, lab+".rescale.common")
+				e := rapid.IntRange(-6, 8).Draw(g.t, lab+".rescale.exp")
+				for i := range n.P {
+					if !common {
+						e = rapid.IntRange(-6, 8).Draw(g.t, fmt.Sprintf("%s.rescale.e%d", lab, i))
+					}
+					n.I = append(n.I, e)
+				}
+			}
 			return n
 		},
 		build: func(b *built) {
@@ -714,11 +753,13 @@ func init() {
 				mx := kit.V3{b.n.F[0], b.n.F[2], b.n.F[4]}
 				poly = model3d.NewConvexPolytopeRect(m3.C3(mn), m3.C3(mx))
 				for i := 6; i < len(b.n.P); i++ {
-					poly = append(poly, &model3d.LinearConstraint{Normal: m3.C3(b.n.P[i]), Max: b.n.F[i]})
+					f := polyRescale(b.n, i)
+					poly = append(poly, &model3d.LinearConstraint{Normal: m3.C3(b.n.P[i].Scale(f)), Max: b.n.F[i] * f})
 				}
 			} else {
 				for i := range b.n.P {
-					poly = append(poly, &model3d.LinearConstraint{Normal: m3.C3(b.n.P[i]), Max: b.n.F[i]})
+					f := polyRescale(b.n, i)
+					poly = append(poly, &model3d.LinearConstraint{Normal: m3.C3(b.n.P[i].Scale(f)), Max: b.n.F[i] * f})
 				}
 			}
 			b.set3(poly.Solid())
@@ -943,4 +984,12 @@ func falloff(kind int, k float64) (func(float64) float64, func(float64) float64)
 		return 1 / (r * r)
 	}
 	return f, f
+}
+
+// polyRescale: the factor by which constraint i of a polytope node is rescaled (normal and bound together).
+func polyRescale(n *node, i int) float64 {
+	if 1+i < len(n.I) && n.I[1+i] != 0 {
+		return math.Pow(10, float64(n.I[1+i]))
+	}
+	return 1
 }
